@@ -143,7 +143,24 @@ def gen_chain_tree(rng, RG):
             fill_mem(c)
         return below
     fill_nds(root, 0)
-    return RG.tree_to_xml(root, dont_merge_groups=rng.random() < 0.1), types
+    # disallowed PUs and NUMA nodes (root allowed sets smaller than the root sets): loaded without INCLUDE_DISALLOWED they are
+    # stripped from every set, also below memory-side caches (seeded change C01l: remove_unused_sets did not recurse into
+    # the memory children of memory objects)
+    acs = ands = None
+    if rng.random() < 0.35:
+        pus_ = [b for b in range(npu[0]) if root.cs >> b & 1]
+        nodes_ = [b for b in range(numa[0] + 1) if root.nds >> b & 1]
+        if len(pus_) > 1 and rng.random() < 0.7:
+            drop = rng.sample(pus_, rng.randint(1, max(1, len(pus_) // 3)))
+            acs = root.cs & ~sum(1 << b for b in drop)
+        if len(nodes_) > 1 and rng.random() < 0.7:
+            drop = rng.sample(nodes_, rng.randint(1, max(1, len(nodes_) // 2)))
+            ands = root.nds & ~sum(1 << b for b in drop)
+            if not ands:
+                ands = None
+    xml = RG.tree_to_xml(root, dont_merge_groups=rng.random() < 0.1, allowed_cs=acs, allowed_nds=ands)
+    gen_chain_tree.last_has_disallowed_behind_memcache = (acs is not None or ands is not None) and "MemCache" in xml
+    return xml, types
 
 
 def make_cases(run, scratch):
@@ -215,6 +232,10 @@ def make_cases(run, scratch):
             with open(path, "w") as f:
                 f.write(xml)
             r = rng.random()
+            if gen_chain_tree.last_has_disallowed_behind_memcache and r < 0.7:
+                # memory-side caches kept, disallowed resources stripped (no INCLUDE_DISALLOWED)
+                cases.append(("chainxml:%d|filter 15 0;filter 19 0;flags 0" % i, ["env HWLOC_LIBXML_IMPORT %d" % (i % 2), "filter 15 0", "filter 19 0", "flags 0", "src xml " + path], "genxml"))
+                continue
             if r < 0.3:
                 cfg = []
             elif r < 0.75:      # the chain types under KEEP_STRUCTURE (what the level-merging pass looks at) or KEEP_ALL
